@@ -563,7 +563,7 @@ func TestVF_C25(t *testing.T) {
 	r.Assume("series and exemplar labels are sorted by name with unique non-empty names (what remote write delivers); exemplar HasTs is not part of the encoding and is not compared")
 	r.Assume("reference for histograms = prompb.HistogramProtoToHistogram / FloatHistogramProtoToFloatHistogram (the conversions the protobuf replication path applies)")
 	n := r.N(3000, 100000)
-	r.Require(int64(4*n), n/2)
+	r.Require(int64(3*n), n/2) // 4 paths per request; a path that ends in a (known) violation stops evaluating that request
 
 	// in-memory RPC: real client, monitor-side Writer server
 	lis := bufconn.Listen(1 << 20)
